@@ -4,7 +4,7 @@ import vlib
 from vlib import tla_str, tla_set, tla_seq, tla_mode
 
 BASE = {
-    "DEV_ParseStopsAtN": "FALSE", "DEV_DeltaSingleCharNoop": "FALSE", "DEV_AdminSelfRaise": "FALSE",
+    "DEV_NormalizeInclusive": "FALSE", "DEV_ParseStopsAtN": "FALSE", "DEV_DeltaSingleCharNoop": "FALSE", "DEV_AdminSelfRaise": "FALSE",
 }
 # as-built deviations currently present in /repo (each one is a known finding or gets a fix: commit)
 DEV_ALL = ["DEV_NewSubWantO", "DEV_UnsetWantTakesGiven", "DEV_BannedUpdateApplied", "DEV_OfflineSetSubBypassesCache", "DEV_ReadNoteRecvNotStored"]
@@ -43,11 +43,12 @@ def consts_for(users, sess, topics, dev, **kw):
     return c
 
 
-def mc_consts(users, sess, topics, dev, want, given, kinds, props, maxseq=0, maxdepth=0, dump="", maxsubs=3):
+def mc_consts(users, sess, topics, dev, want, given, kinds, props, maxseq=0, maxdepth=0, dump="", maxsubs=3, delranges=None, maxdel=2):
     return consts_for(users, sess, topics, dev,
                       WantModes=tla_set(tla_mode(m) for m in want), GivenModes=tla_set(tla_mode(m) for m in given),
                       Kinds=tla_set(map(tla_str, kinds)), MaxSeq=str(maxseq), MaxDepth=str(maxdepth),
-                      Props=tla_set(map(tla_str, props)), DumpPrefix=tla_str(dump), MaxSubs=str(maxsubs), RandomWalk="FALSE")
+                      Props=tla_set(map(tla_str, props)), DumpPrefix=tla_str(dump), MaxSubs=str(maxsubs), RandomWalk="FALSE",
+                      DelRanges=tla_set(tla_seq(tla_seq([str(lo), str(hi)]) for lo, hi in rl) for rl in (delranges or [[(1, 0)]])), MaxDel=str(maxdel))
 
 
 def model_check(ctx, name, consts, timeout=900, workers=None, want_trace=False):
@@ -141,7 +142,7 @@ def check_traces(ctx, trace_path, consts, props, name="TraceRun", timeout=900):
         import shutil
         shutil.copy(trace_path, dst)
     c = dict(consts)
-    for k in ("WantModes", "GivenModes", "Kinds", "MaxSeq", "MaxDepth", "DumpPrefix", "RandomWalk"):
+    for k in ("WantModes", "GivenModes", "Kinds", "MaxSeq", "MaxDepth", "DumpPrefix", "RandomWalk", "DelRanges", "MaxDel"):
         c.pop(k, None)
     c["Props"] = tla_set(map(tla_str, props))
     vlib.write_instance(ctx, name, "Trace_TopicCore", c, ["INIT Init", "NEXT Next", "CHECK_DEADLOCK FALSE"])
